@@ -1,8 +1,8 @@
 (* Props/C04.v — theorems of property C04 (statements only; proofs in coq/Proofs/MapStream*.v).
    Model: coq/Model/MapStream.v (version Fixed = /repo after work/C04/fix-*.diff, Orig = as found).
    Spec:  coq/Spec/MapStreamSpec.v. *)
-From Coq Require Import ZArith List.
-From EV Require Import Res Arr MapStream MapStreamSpec MapStreamBase MapStreamFixed MapStreamRefuted.
+From Coq Require Import ZArith List Lia.
+From EV Require Import Res Arr MapStream MapStreamSpec MapStreamBase MapStreamFixed MapStreamRefuted MapHelpers.
 Import ListNotations.
 Open Scope Z_scope.
 
@@ -21,13 +21,44 @@ Example map_stream_correct_hyps :
   valid_mapb 6 INVALID_INDEX_32 [INVALID_INDEX_32; 0; 2; 2; INVALID_INDEX_32; 5; INVALID_INDEX_32] = true.
 Proof. reflexivity. Qed.
 
+(* ---- non-streaming helpers give the same answer: FULL ------------------------------------------
+   (no ordering needed: valid entries only have to be in range) *)
+Theorem map_valid_correct :
+  forall (A:Type) (empty:A) (data:list A) (inv:Z) (m:list Z),
+    in_range_map (len data) inv m -> map_valid empty data m inv = Ok (map_spec empty data inv m).
+Proof. exact @map_valid_correct_gen. Qed.
+Print Assumptions map_valid_correct.
+
+Theorem safe_map_values_correct :
+  forall (A:Type) (empty:A) (data:list A) (inv:Z) (m:list Z) (ev:option A),
+    in_range_map (len data) inv m ->
+    safe_map_values empty Fixed data m (filter_of inv m) ev
+    = Ok (map_spec (match ev with Some e => e | None => empty end) data inv m).
+Proof. exact @safe_map_values_correct_gen. Qed.
+Print Assumptions safe_map_values_correct.
+
+Theorem stream_equals_helpers :   (* "the non-streaming mapping helpers give the same answer" *)
+  forall (A:Type) (zfill empty:A) (data:list A) (inv:Z) (m:list Z) (cs:Z) (fuel:nat),
+    1 <= cs -> valid_map (len data) inv m -> (fuel >= length m + 1)%nat ->
+    ordered_map_valid_stream zfill empty fuel Fixed data m inv cs = map_valid empty data m inv /\
+    ordered_map_valid_stream zfill empty fuel Fixed data m inv cs
+      = safe_map_values empty Fixed data m (filter_of inv m) None.
+Proof.
+  intros A zfill empty data inv m cs fuel Hcs Hv Hf.
+  rewrite (map_stream_correct A zfill empty data inv m cs fuel Hcs Hv Hf).
+  rewrite (map_valid_correct A empty data inv m (valid_map_in_range _ _ _ Hv)).
+  rewrite (safe_map_values_correct A empty data inv m None (valid_map_in_range _ _ _ Hv)).
+  split; reflexivity.
+Qed.
+Print Assumptions stream_equals_helpers.
+
 (* ---- the code as found: REFUTED (each witness is replayed on the real code, corpus/C04) ------ *)
 Theorem map_stream_sentinel_refuted :   (* F-C04a *)
   exists data m inv cs, valid_mapb (len data) inv m = true /\ 1 <= cs /\
     ordered_map_valid_stream 0 0 (length m + 8) Orig data m inv cs <> Ok (map_spec 0 data inv m).
 Proof.
   exists [10;20;30;40;50;60], [0; S32], S32, 4.
-  destruct stream_sentinel_witness as [H1 [H2 H3]]. split; [exact H1|]. split; [reflexivity|].
+  destruct stream_sentinel_witness as [H1 [H2 H3]]. split; [exact H1|]. split; [lia|].
   cbn [length Nat.add]. rewrite H2, H3. discriminate.
 Qed.
 Print Assumptions map_stream_sentinel_refuted.
@@ -37,7 +68,7 @@ Theorem map_stream_fixedstring_refuted :   (* F-C04c: marker -1, fixed-string co
     ordered_map_valid_stream [48] [] (length m + 8) Orig data m (-1) cs <> Ok (map_spec [] data (-1) m).
 Proof.
   exists [[97];[98;98]], [-1; -1], 4.
-  destruct stream_fixedstring_witness as [H2 H3]. split; [reflexivity|]. split; [reflexivity|].
+  destruct stream_fixedstring_witness as [H2 H3]. split; [reflexivity|]. split; [lia|].
   cbn [length Nat.add]. rewrite H2, H3. discriminate.
 Qed.
 Print Assumptions map_stream_fixedstring_refuted.
